@@ -9,6 +9,8 @@ import RpylibModel.Proofs.Lemmas.C14Fold
 import RpylibModel.Proofs.Lemmas.C14Z1d
 import RpylibModel.Proofs.Lemmas.C14Lazy
 import RpylibModel.Proofs.Lemmas.C14States
+import RpylibModel.Proofs.Lemmas.C14RS
+import RpylibModel.Proofs.Lemmas.C14Frontier
 
 namespace Rpylib.Pairing
 
@@ -33,14 +35,55 @@ theorem proj_pair_pepis (x y : Nat) : pepisProj (pepisPair x y) = (x, y) := pepi
 theorem toZ_ofZ (n : Int) : toZ (ofZ n) = n := toZ_ofZ' n
 theorem ofZ_toZ (z : Nat) : ofZ (toZ z) = z := ofZ_toZ' z
 
-/-! ## 4. d coordinates: `Pairing.pairing` / `Pairing.projection(·, d)` are mutually inverse for every d ≥ 1
-(the base-class extension used by Cantor (d = 2 only in the code), Szudzik, Pepis–Kalmár) -/
+/-! ## 4. d coordinates, every d ≥ 1: `Pairing.pairing` / `Pairing.projection(·, d)` (the base-class extension used by
+Cantor (d = 2 only in the code), Szudzik, Pepis–Kalmár) and `RosenbergStrong.pairing / projection` are mutually inverse -/
 
-theorem pairN_bijection (k : Kind) (hk : k ≠ .rs) (d : Nat) (hd : 1 ≤ d) : NdBij k.pairN k.projD d := by
+theorem maxL_replicate_zero (d : Nat) : maxL (List.replicate d 0) = 0 := by
+  induction d with
+  | zero => rfl
+  | succ d ih => simp only [List.replicate_succ, maxL_cons, ih]; rfl
+
+/-- Rosenberg–Strong in every dimension d ≥ 1 (`RosenbergStrong.pairing / projection`, induction on d) -/
+theorem pair_proj_rs (z d : Nat) (hd : 1 ≤ d) : rsPair (rsProj z d) = z := by
+  simp only [rsPair, rsProj, List.reverse_reverse]; exact (rs_proj_spec d z hd).2.2
+
+theorem proj_pair_rs (xs : List Nat) (hx : xs ≠ []) : rsProj (rsPair xs) xs.length = xs := by
+  have h := rs_proj_pair xs.reverse (by simpa using hx)
+  simp only [List.length_reverse] at h
+  simp only [rsPair, rsProj, h, List.reverse_reverse]
+
+/-- the d = 2 instance is the static `pairing2d` -/
+theorem rsPair_two (x y : Nat) : rsPair [x, y] = rs2Pair x y := by
+  have h : rsPair [x, y] = x + max y (max x 0) * max y (max x 0) ^ 1 +
+      (max y (max x 0) - y) * ((max y (max x 0) + 1) ^ 1 - max y (max x 0) ^ 1) := by
+    show rsPairR [y, x] = _
+    rw [rsPairR_cons y [x] (by simp)]; rfl
+  rw [h]; unfold rs2Pair
+  have e1 : max y (max x 0) = max x y := by omega
+  rw [e1, Nat.pow_one, Nat.pow_one, Nat.mul_add]
+  have e2 : max x y + 1 - max x y = 1 := by omega
+  rw [e2]
+  generalize max x y * max x y = q
+  omega
+
+theorem rs_ndBij (d : Nat) (hd : 1 ≤ d) : NdBij rsPair rsProj d := by
+  refine ⟨fun z => ?_, fun z => pair_proj_rs z d hd, fun xs hx => ?_, ?_⟩
+  · simp only [rsProj, List.length_reverse]; exact (rs_proj_spec d z hd).1
+  · have : xs ≠ [] := by intro hc; subst hc; simp at hx; omega
+    rw [← hx]; exact proj_pair_rs xs this
+  · simp only [rsPair, List.reverse_replicate]
+    have hne : List.replicate d 0 ≠ [] := by
+      intro hc; have := congrArg List.length hc; simp at this; omega
+    have := (rs_shell (List.replicate d 0) hne).2
+    rw [maxL_replicate_zero] at this
+    simp at this
+    exact this
+
+theorem pairN_bijection (k : Kind) (d : Nat) (hd : 1 ≤ d) : NdBij k.pairN k.projD d := by
   cases k with
   | cantor => exact cantor.ndBij cantor_isBij (by decide) d hd
   | rs2 => exact rs2.ndBij rs2_isBij (by decide) d hd
-  | rs => exact absurd rfl hk
+  | rs => exact rs_ndBij d hd
   | szudzik => exact szudzik.ndBij szudzik_isBij (by decide) d hd
   | pepis => exact pepis.ndBij pepis_isBij (by decide) d hd
 
@@ -57,10 +100,10 @@ theorem zd_enumerates_nonzero_once {pairN : List Nat → Nat} {projD : Nat → N
   ⟨fun i => ⟨zd_length h i, zd_project_ne_zero h i, zd_pair_project h i⟩,
    fun v hl hv => ⟨zd_exactly_once h v hl hv, zd_project_pair h v hl hv⟩⟩
 
-/-- instance: Cantor, Rosenberg–Strong (static 2-d form), Szudzik, Pepis–Kalmár in every dimension d ≥ 1 -/
-theorem zd_enumerates_nonzero_once_kind (k : Kind) (hk : k ≠ .rs) (d : Nat) (hd : 1 ≤ d) (v : List Int)
+/-- instance: Cantor, Rosenberg–Strong (both forms), Szudzik, Pepis–Kalmár in every dimension d ≥ 1 -/
+theorem zd_enumerates_nonzero_once_kind (k : Kind) (d : Nat) (hd : 1 ≤ d) (v : List Int)
     (hl : v.length = d) (hv : v ≠ List.replicate d 0) : ∃! i : Nat, zdProject k.projD 1 d i = v :=
-  zd_exactly_once (pairN_bijection k hk d hd) v hl hv
+  zd_exactly_once (pairN_bijection k d hd) v hl hv
 
 /-! ## 6. the interval `[-L, R]` (`PairingToZ1d`), every L, R > 0 -/
 
@@ -242,23 +285,9 @@ theorem states_manager_1d (L R : Nat) (hL : 0 < L) (hR : 0 < R) :
 def smBoxAdm (projD : Nat → Nat → List Nat) (o : Nat) (ns : List Nat) (i : Nat) : Bool :=
   inBox o ns (zdProject projD 1 ns.length i)
 
-theorem inBox_length (o : Nat) : ∀ (ns : List Nat) (v : List Int), inBox o ns v = true → v.length = ns.length := by
-  intro ns
-  induction ns with
-  | nil => intro v h; cases v with
-    | nil => rfl
-    | cons a t => simp [inBox] at h
-  | cons n ns ih =>
-    intro v h
-    cases v with
-    | nil => simp [inBox] at h
-    | cons a t =>
-      simp only [inBox, Bool.and_eq_true] at h
-      simp only [List.length_cons, ih t h.2]
-
 /-- **each in-box non-origin state exactly once, then exhaustion** for any pairing that is a bijection ℕ ↔ ℕ^d,
-*under the hypothesis that the search bound exceeds every in-box index* (`hb`).  Monotone pairings (Szudzik: see
-`szudzik_frontier_bound`) satisfy `hb` with the bound the code computes; Rosenberg–Strong does not
+*under the hypothesis that the search bound exceeds every in-box index* (`hb`).  Monotone pairings (Szudzik, Cantor,
+Pepis–Kalmár: `monotone_frontier_bound`) satisfy `hb` with the bound the code computes; Rosenberg–Strong does not
 (`rs_frontier_bound_counterexample`). -/
 theorem states_manager_box {pairN : List Nat → Nat} {projD : Nat → Nat → List Nat} (o : Nat) (ns : List Nat)
     (h : NdBij pairN projD ns.length) (bound : Nat)
@@ -285,6 +314,36 @@ theorem states_manager_box {pairN : List Nat → Nat} {projD : Nat → Nat → L
     have hlt := hb v hv hv0
     refine ⟨j, hp, sm_no_early_exhaustion _ _ n hnone j (by omega) ?_⟩
     simp only [smBoxAdm, hp, hv]
+
+
+/-- the search bound as the code computes it: `max(frontier_states) + 1` -/
+def smBoxBound (pairN : List Nat → Nat) (o : Nat) (ns : List Nat) : Nat := (maxFrontier (zdPair pairN 1) o ns + 1).toNat
+
+/-- Szudzik (the factory's pairing for d = 2; d ≥ 3 through the base-class fold), Cantor and Pepis–Kalmár are monotone
+in the last coordinate, hence the code's bound exceeds every in-box index (boxes of dimension ≥ 2, any axis sizes) -/
+theorem monotone_frontier_bound (k : Kind) (hk : k = .szudzik ∨ k = .cantor ∨ k = .pepis) (o : Nat)
+    (first : List Nat) (nL : Nat) (hf : first ≠ []) (v : List Int) (hv : inBox o (first ++ [nL]) v = true) :
+    zdPair k.pairN 1 v < (smBoxBound k.pairN o (first ++ [nL]) : Int) := by
+  have h : zdPair k.pairN 1 v ≤ maxFrontier (zdPair k.pairN 1) o (first ++ [nL]) := by
+    rcases hk with rfl | rfl | rfl
+    · exact frontier_bound_of_mono szudzik szudzik_mono_right o first nL hf v hv
+    · exact frontier_bound_of_mono cantor cantor_mono_right o first nL hf v hv
+    · exact frontier_bound_of_mono pepis pepis_mono_right o first nL hf v hv
+  unfold smBoxBound
+  omega
+
+/-- **each in-box non-origin state exactly once, then exhaustion**, with the bound the code computes, for Szudzik,
+Cantor, Pepis–Kalmár on every box of dimension ≥ 2 -/
+theorem states_manager_box_monotone (k : Kind) (hk : k = .szudzik ∨ k = .cantor ∨ k = .pepis) (o : Nat)
+    (first : List Nat) (nL : Nat) (hf : first ≠ []) (v : List Int) (hv : inBox o (first ++ [nL]) v = true)
+    (hv0 : v ≠ List.replicate (first ++ [nL]).length 0) :
+    ∃ j : Nat, zdPair k.pairN 1 v = j ∧ zdProject k.projD 1 (first ++ [nL]).length j = v ∧
+      ∀ n, j < n →
+        (smRun (smBoxAdm k.projD o (first ++ [nL])) (smBoxBound k.pairN o (first ++ [nL])) n).2.count (some j) = 1 := by
+  have hb : ∀ w, inBox o (first ++ [nL]) w = true → w ≠ List.replicate (first ++ [nL]).length 0 →
+      zdPair k.pairN 1 w < (smBoxBound k.pairN o (first ++ [nL]) : Int) :=
+    fun w hw _ => monotone_frontier_bound k hk o first nL hf w hw
+  exact (states_manager_box o (first ++ [nL]) (pairN_bijection k _ (by simp)) _ hb).1 v hv hv0
 
 /-- FULL STATEMENT THAT DOES NOT HOLD for the code's bound with Rosenberg–Strong (the factory's pairing for d ≥ 3):
   `∀ v, inBox o ns v → v ≠ 0 → zdPair rsPair 1 v < maxFrontier (zdPair rsPair 1) o ns + 1`.
